@@ -155,6 +155,9 @@ def gen_params(rng: random.Random, idx, tier="quick", profile="mixed", force=Non
     P["fault_p"] = {a: fp for a in GROUP_APIS}
     if profile == "commit":
         P["fault_p"]["OffsetCommit"] = rng.choice([0.0, 0.2, 0.4])
+    # non-retriable coordinator replies (authorization, inconsistent protocol, invalid session timeout): the error is
+    # raised to the application's poll call; once consumed, coordination has to resume
+    P["fatal_codes"] = profile in ("faults", "mixed") and rng.random() < 0.3
     P["fault_p"]["Fetch"] = rng.choice([0.0, 0.0, 0.05])
     P["fault_p"]["Metadata"] = rng.choice([0.0, 0.0, 0.05])
     P["kill_at_event"] = None      # {"m": .., "k": ..}: kill member m at loop event k (crash-point enumeration)
@@ -221,6 +224,13 @@ def run_history(P):
                   for a in GROUP_APIS},
                "Fetch": ["drop_before", "lose_reply", "delay", ("error", C.NOT_LEADER_FOR_PARTITION)],
                "Metadata": ["drop_before", "delay"]})
+    if P.get("fatal_codes"):
+        extra = {"JoinGroup": [C.GROUP_AUTHORIZATION_FAILED, C.INCONSISTENT_GROUP_PROTOCOL, C.INVALID_SESSION_TIMEOUT],
+                 "SyncGroup": [C.GROUP_AUTHORIZATION_FAILED], "Heartbeat": [C.GROUP_AUTHORIZATION_FAILED],
+                 "OffsetCommit": [C.GROUP_AUTHORIZATION_FAILED, C.TOPIC_AUTHORIZATION_FAILED],
+                 "OffsetFetch": [C.GROUP_AUTHORIZATION_FAILED], "FindCoordinator": [C.GROUP_AUTHORIZATION_FAILED]}
+        for api, codes in extra.items():
+            plan.kinds[api] = plan.kinds[api] + [("error", c) for c in codes]
     plan.enabled = False
     cl.faults = plan
     uid_n = {}
